@@ -22,6 +22,7 @@ func checkC19(w *World, r *Report, tier string) propMeta {
 	c19R5(w, r)
 	c19R6(w, r)
 	c14R2(w, r, "C19.R7")
+	c20R8(w, r, "C19.R10")
 	c19R8(w, r)
 	c19R9(w, r)
 	return propMeta{
